@@ -95,7 +95,7 @@ func (o *Op) Encode() string {
 			h = HexS(o.Handler)
 		}
 		return "AS:" + hexList(o.Names) + ":" + h + ":" + hexList(o.Enum) + ":" + o.Re.enc() + ":" + o.scopeEnc()
-	case "DA", "AC":
+	case "DA", "AC", "ZERO":
 		return o.Kind
 	case "NF", "NFQ", "NR", "NRQ", "CO", "TB", "PU", "RU", "SP", "UN":
 		return o.Kind + ":" + flag(o.Flag)
@@ -219,6 +219,8 @@ func reGo(r *RE) *regexp.Regexp {
 // Apply performs the builder call on the real policy.
 func (o *Op) Apply(p *bluemonday.Policy) {
 	switch o.Kind {
+	case "ZERO":
+		// pseudo-op: handled by Build / NewBase
 	case "AE":
 		p.AllowElements(o.Names...)
 	case "AEM":
@@ -307,13 +309,28 @@ func (o *Op) Apply(p *bluemonday.Policy) {
 	}
 }
 
-// Build applies a history to a fresh NewPolicy().
+// Build applies a history to a fresh NewPolicy() — or, when the history starts with the
+// pseudo-op ZERO, to a zero-value Policy{} (which the library initialises lazily).
 func Build(ops []*Op) *bluemonday.Policy {
 	p := bluemonday.NewPolicy()
+	if len(ops) > 0 && ops[0].Kind == "ZERO" {
+		p = &bluemonday.Policy{}
+	}
 	for _, o := range ops {
+		if o.Kind == "ZERO" {
+			continue
+		}
 		o.Apply(p)
 	}
 	return p
+}
+
+// NewBase returns the policy value a history starts from.
+func NewBase(ops []*Op) *bluemonday.Policy {
+	if len(ops) > 0 && ops[0].Kind == "ZERO" {
+		return &bluemonday.Policy{}
+	}
+	return bluemonday.NewPolicy()
 }
 
 // RegexNamer returns the VerifDump naming callback for the regexps used in ops.
